@@ -256,7 +256,7 @@ func runC16(p *core.Prog, r *core.Report) {
 		classify := func(fn *ssa.Function) cls {
 			out := cls{}
 			r.Touch(core.FuncName(fn))
-			core.Instrs(fn, func(in ssa.Instruction) {
+			core.InstrsDeep(fn, func(in ssa.Instruction) {
 				ifi, ok := in.(*ssa.If)
 				if !ok {
 					return
@@ -392,7 +392,7 @@ func runC16(p *core.Prog, r *core.Report) {
 		okFinal, okRetry := false, false
 		// (in work or in the helper of its family that classifies the receive error)
 		for _, member := range core.Family(wf, 1) {
-			core.Instrs(member, func(in ssa.Instruction) {
+			core.InstrsDeep(member, func(in ssa.Instruction) {
 				ifi, ok := in.(*ssa.If)
 				if !ok {
 					return
@@ -486,7 +486,7 @@ func runC16(p *core.Prog, r *core.Report) {
 		}
 		var nonEOF []core.Edge
 		var ctxErrEdges []core.Edge
-		core.Instrs(cf, func(in ssa.Instruction) {
+		core.InstrsDeep(cf, func(in ssa.Instruction) {
 			ifi, ok := in.(*ssa.If)
 			if !ok {
 				return
@@ -736,7 +736,7 @@ func runC16(p *core.Prog, r *core.Report) {
 			}
 			// deadline-exceeded edges
 			var deadline []core.Edge
-			core.Instrs(cl, func(in ssa.Instruction) {
+			core.InstrsDeep(cl, func(in ssa.Instruction) {
 				ifi, ok := in.(*ssa.If)
 				if !ok {
 					return
@@ -764,7 +764,7 @@ func runC16(p *core.Prog, r *core.Report) {
 				return c != nil && c.Name() == "NewFatalError"
 			})
 			nGive, bad := 0, []string{}
-			core.Instrs(cl, func(in ssa.Instruction) {
+			core.InstrsDeep(cl, func(in ssa.Instruction) {
 				ifi, ok := in.(*ssa.If)
 				if !ok {
 					return
@@ -879,7 +879,7 @@ func runC16(p *core.Prog, r *core.Report) {
 		g := p.Func(pkgStage, "StoreModuleState.getStore")
 		okG := false
 		lb := p.Field(pkgStage, "StoreModuleState", "lastBlockInStore")
-		core.Instrs(g, func(in ssa.Instruction) {
+		core.InstrsDeep(g, func(in ssa.Instruction) {
 			ifi, isIf := in.(*ssa.If)
 			if !isIf {
 				return
@@ -922,7 +922,7 @@ func runC16(p *core.Prog, r *core.Report) {
 		resT := p.Named(pkgPipe, "resultObj")
 		errF := core.FieldOf(resT, "err")
 		okFirst := false
-		core.Instrs(ap, func(in ssa.Instruction) {
+		core.InstrsDeep(ap, func(in ssa.Instruction) {
 			ifi, isIf := in.(*ssa.If)
 			if !isIf {
 				return
